@@ -77,3 +77,10 @@ reg("C15", "proof", ["contracts.stress:Stress", "contracts.density:ReducedDM", "
 
 reg("C14", "proof", ["contracts.esp:ESP"], ["gbasis.evals.electrostatic_potential.electrostatic_potential"],
     extra_assumptions=["point_charge_integral replaced by its contract (C03)", "mask / case analysis by z3 (QF_NRA with square-root atoms)"])
+
+reg("C20", "proof", ["contracts.screening:IsScreened", "contracts.screening:ScreeningLemmas", "contracts.screening:OverlapScreenedBlock",
+    "contracts.assembly:TwoSymm", "contracts.dispatch:Dispatch"],
+    ["gbasis.integrals.overlap.is_integral_screened", "gbasis.integrals.overlap.Overlap.construct_array_contraction",
+     "gbasis.integrals.overlap.overlap_integral", "gbasis.base_two_symm.BaseTwoIndexSymmetric.construct_array_* (keyword forwarding)"],
+    extra_assumptions=["precondition 0 < tol_screen < 1 (the property's range 1e-16 .. 0.5)",
+                       "ln / exp enter z3 through sound axiom instances: strict monotonicity, sign of ln around 1, exp(ln x) = x"])
